@@ -240,4 +240,56 @@ def buildPlotData (ms : List Metric) (t : List Cell) : List Record :=
   let fs := fieldSummaries ms t
   t.map fun c => mkRecord c (lookupLast c fs)
 
+/-! ## build_plot_data with the option `remove_empties`
+
+`remove_empties=False` keeps, for every metric of the table, an entry in the record: the summary, or the EMPTY
+summary `{}` (`FieldSummary.dict()` of a summary whose `mean is None`) when the metric has no inputs. The tooltip
+is joined from the NON-EMPTY summaries whose `snake_case_field` is one of the cell's value keys
+(`if v and v["snake_case_field"] in cell.values`). `flat` / `keep_samples` do not change which records and
+statistics there are (`flat` renames keys, `keep_samples` changes the `metric` entry only). -/
+
+/-- a summary slot of a record: `none` = the empty summary `{}` -/
+abbrev Entry := String × Option Summary
+
+/-- the inner dict comprehension BEFORE the `remove_empties` filter: one entry per metric -/
+def cellSummariesAll (ms : List Metric) (c : Cell) (p n : Option Cell) : List Entry :=
+  ms.map fun m => (toSnake m.name, (safeApplyMetric m c p n).map fieldSummary)
+
+/-- the non-empty summaries among the entries (`if summary`) -/
+def nonEmpty (l : List Entry) : List (String × Summary) :=
+  l.filterMap fun e => e.2.map fun s => (e.1, s)
+
+def fieldSummariesAll (ms : List Metric) (t : List Cell) : List (Cell × List Entry) :=
+  (slicePeriodRows t).flatMap fun kr =>
+    (rowTriples kr.2).map fun (c, p, n) => (c, cellSummariesAll ms c p n)
+
+def lookupLastAll (c : Cell) (l : List (Cell × List Entry)) : List Entry :=
+  match (l.filter fun e => cellEq e.1 c).getLast? with
+  | some e => e.2
+  | none => []
+
+/-- `{name: summary for name, summary in values.items() if summary}` when `remove_empties` -/
+def keepEntries (removeEmpties : Bool) (l : List Entry) : List Entry :=
+  if removeEmpties then l.filter (·.2.isSome) else l
+
+/-- the metric names whose tooltips are joined: `if v and v["snake_case_field"] in cell.values` -/
+def tooltipNames (c : Cell) (l : List Entry) : List String :=
+  (l.filter fun e => e.2.isSome && c.values.keys.contains e.1).map (·.1)
+
+structure RecordE where
+  /-- coordinates, fields and the NON-EMPTY summaries (what the default call returns) -/
+  base : Record
+  /-- every metric entry of the record in dict order, empty summaries as `none` -/
+  entries : List Entry
+  /-- names of the summaries the tooltip is joined from -/
+  tooltip : List String
+deriving DecidableEq, Repr, Inhabited
+
+/-- `build_plot_data(triangle, metric_dict, remove_empties)` -/
+def buildPlotDataOpt (removeEmpties : Bool) (ms : List Metric) (t : List Cell) : List RecordE :=
+  let fs := fieldSummariesAll ms t
+  t.map fun c =>
+    let kept := keepEntries removeEmpties (lookupLastAll c fs)
+    { base := mkRecord c (nonEmpty kept), entries := kept, tooltip := tooltipNames c kept }
+
 end Bermuda.Plot
